@@ -761,6 +761,12 @@ def _do_xform_inner(st, s, op):
         r = splitdim(f, op['dim'], op['new'], op['shape'])
     else:
         raise HarnessError('unknown xform %s' % name)
+    if r is f and name in ('slice_dim', 'reduce_dim') and \
+            str(op.get('def', '')).split(',')[0] not in f.dimensions:
+        # documented pass-through: "<dim> not in file" is warned about and the input
+        # is handed back; no new file is returned, nothing to judge
+        st.w.probe('functional_helper_passed_its_input_through')
+        return None, 'same-object'
     if r is f:
         # "returns a new file": the receiver itself is the extreme case of a result
         # that aliases its input (every later write to the result is a write to the
